@@ -137,4 +137,119 @@ theorem post_sim {bA bB : PState → Res × PState} (h : SimB Q bA bB)
   rw [h1] at e1 e2
   exact ⟨tB', e1, e2⟩
 
+theorem bodyNode_sim (hQ : QOK Q) {pA pB : SubParser} (h : Sim Q pA pB) (k : Nat) (nd : Node)
+    (hws : nd.ws = none) (hsk : nd.skipws = none) (heol : nd.eolterm = false) :
+    SimB Q (bodyNode pA k nd) (bodyNode pB k nd) := by
+  have hp : ∀ e, SimB Q (fun s => pA e s) (fun s => pB e s) := fun e sA sB r tA hq h1 hr => h e sA sB r tA hq h1 hr
+  intro sA sB r tA hq h1 hr
+  unfold bodyNode at h1 ⊢
+  simp only [withWsCtx_uniform nd hws hsk, withEol_uniform nd heol] at h1 ⊢
+  cases hkind : nd.kind <;> simp only [hkind] at h1 ⊢
+  case seq =>
+    exact post_sim (fun sA sB r tA hq h1 hr => seqLoop_sim hQ h nd.kids sA sB [] r tA hq h1 hr)
+      (fun c x => match x with | (.nomatch, s2) => (.nomatch, { s2 with pos := c }) | r => r)
+      (by intro c x hx; obtain ⟨r, s2⟩ := x; simp at hx; subst hx; rfl)
+      (by intro c r tA tB hq
+          rcases r with v | _ | _ | _
+          · exact ⟨tB, rfl, hq⟩
+          · exact ⟨_, rfl, hQ.setPos hq c⟩
+          · exact ⟨tB, rfl, hq⟩
+          · exact ⟨tB, rfl, hq⟩)
+      hQ.pos sA sB r tA hq h1 hr
+  case choice =>
+    rw [← hQ.pos hq]
+    cases hb : choiceLoop pA nd.kids sA.pos sA with | mk r1 s1 =>
+    rw [hb] at h1
+    have hne : r1 ≠ .fuel := by intro e; subst e; (try simp only [] at h1); cases h1; exact hr rfl
+    obtain ⟨tB1, hB, hq1⟩ := choiceLoop_sim hQ h nd.kids sA.pos sA sB r1 s1 hq hb hne
+    rw [hB]
+    rcases r1 with v | _ | _ | _
+    · (try simp only [] at h1 ⊢); cases h1; exact ⟨tB1, rfl, hq1⟩
+    · (try simp only [] at h1 ⊢); cases h1; exact ⟨_, rfl, hQ.nmR hq1 _⟩
+    · exact absurd rfl hne
+    · (try simp only [] at h1 ⊢); cases h1; exact ⟨tB1, rfl, hq1⟩
+  case opt =>
+    cases hkids : nd.kids with
+    | nil => simp only [hkids] at h1 ⊢; cases h1; exact ⟨sB, rfl, hq⟩
+    | cons e es =>
+      cases es with
+      | nil =>
+        simp only [hkids] at h1 ⊢
+        exact post_sim (hp e)
+          (fun c x => match x with | (.ok v, s2) => (.ok (.list [v]), s2)
+                                    | (.nomatch, s2) => (.ok .none, { s2 with pos := c }) | r => r)
+          (by intro c x hx; obtain ⟨r, s2⟩ := x; simp at hx; subst hx; rfl)
+          (by intro c r tA tB hq
+              rcases r with v | _ | _ | _
+              · exact ⟨tB, rfl, hq⟩
+              · exact ⟨_, rfl, hQ.setPos hq c⟩
+              · exact ⟨tB, rfl, hq⟩
+              · exact ⟨tB, rfl, hq⟩)
+          hQ.pos sA sB r tA hq h1 hr
+      | cons e2 es2 => simp only [hkids] at h1 ⊢; cases h1; exact ⟨sB, rfl, hq⟩
+  case star =>
+    cases hkids : nd.kids with
+    | nil => simp only [hkids] at h1 ⊢; cases h1; exact ⟨sB, rfl, hq⟩
+    | cons e es =>
+      cases es with
+      | nil => simp only [hkids] at h1 ⊢; exact repLoop_sim hQ h e nd.sep k sA sB [] false false r tA hq h1 hr
+      | cons e2 es2 => simp only [hkids] at h1 ⊢; cases h1; exact ⟨sB, rfl, hq⟩
+  case plus =>
+    cases hkids : nd.kids with
+    | nil => simp only [hkids] at h1 ⊢; cases h1; exact ⟨sB, rfl, hq⟩
+    | cons e es =>
+      cases es with
+      | nil => simp only [hkids] at h1 ⊢; exact repLoop_sim hQ h e nd.sep k sA sB [] true false r tA hq h1 hr
+      | cons e2 es2 => simp only [hkids] at h1 ⊢; cases h1; exact ⟨sB, rfl, hq⟩
+  case unord =>
+    exact post_sim (fun sA sB r tA hq h1 hr => unordLoop_sim hQ h nd.sep k nd.kids sA sB [] true none r tA hq h1 hr)
+      (fun c x => match x with | (.nomatch, s2) => (.nomatch, ({ s2 with pos := c }).nmRaise c) | r => r)
+      (by intro c x hx; obtain ⟨r, s2⟩ := x; simp at hx; subst hx; rfl)
+      (by intro c r tA tB hq
+          rcases r with v | _ | _ | _
+          · exact ⟨tB, rfl, hq⟩
+          · exact ⟨_, rfl, hQ.nmR (hQ.setPos hq c) c⟩
+          · exact ⟨tB, rfl, hq⟩
+          · exact ⟨tB, rfl, hq⟩)
+      hQ.pos sA sB r tA hq h1 hr
+  case andP =>
+    cases hkids : nd.kids with
+    | nil => simp only [hkids] at h1 ⊢; cases h1; exact ⟨sB, rfl, hq⟩
+    | cons e es =>
+      cases es with
+      | nil =>
+        simp only [hkids] at h1 ⊢
+        exact post_sim (hp e)
+          (fun c x => match x with | (.ok _, s2) => (.ok .none, { s2 with pos := c })
+                                    | (.nomatch, s2) => (.nomatch, { s2 with pos := c }) | r => r)
+          (by intro c x hx; obtain ⟨r, s2⟩ := x; simp at hx; subst hx; rfl)
+          (by intro c r tA tB hq
+              rcases r with v | _ | _ | _
+              · exact ⟨_, rfl, hQ.setPos hq c⟩
+              · exact ⟨_, rfl, hQ.setPos hq c⟩
+              · exact ⟨tB, rfl, hq⟩
+              · exact ⟨tB, rfl, hq⟩)
+          hQ.pos sA sB r tA hq h1 hr
+      | cons e2 es2 => simp only [hkids] at h1 ⊢; cases h1; exact ⟨sB, rfl, hq⟩
+  case notP =>
+    cases hkids : nd.kids with
+    | nil => simp only [hkids] at h1 ⊢; cases h1; exact ⟨sB, rfl, hq⟩
+    | cons e es =>
+      cases es with
+      | nil =>
+        simp only [hkids] at h1 ⊢
+        exact post_sim (hp e)
+          (fun c x => match x with | (.ok _, s2) => (.nomatch, ({ s2 with pos := c }).nmRaise c)
+                                    | (.nomatch, s2) => (.ok .none, { s2 with pos := c }) | r => r)
+          (by intro c x hx; obtain ⟨r, s2⟩ := x; simp at hx; subst hx; rfl)
+          (by intro c r tA tB hq
+              rcases r with v | _ | _ | _
+              · exact ⟨_, rfl, hQ.nmR (hQ.setPos hq c) c⟩
+              · exact ⟨_, rfl, hQ.setPos hq c⟩
+              · exact ⟨tB, rfl, hq⟩
+              · exact ⟨tB, rfl, hq⟩)
+          hQ.pos sA sB r tA hq h1 hr
+      | cons e2 es2 => simp only [hkids] at h1 ⊢; cases h1; exact ⟨sB, rfl, hq⟩
+  all_goals (cases h1; exact ⟨sB, rfl, hq⟩)
+
 end Peg
